@@ -109,6 +109,7 @@ inductive Expr where
   | continue_ (label : Option String)
   | fn (ps : List String) (rest : Option String) (body : List Expr)
   | defn (name : String) (ps : List String) (rest : Option String) (body : List Expr)
+  | assign (lhs rhs : Expr)                  -- `(def (…) e)` / `(set (…) e)`: AssignInstr, outside the core language
   | bad (why : String)
 deriving Repr, Inhabited
 
@@ -149,7 +150,7 @@ def labelName (s : String) : String :=
 /-- Formal parameters: `buildSexpFun` — all symbols; `&` in the second-to-last position
 makes the last one the variadic rest. -/
 def splitParams (ps : List Sx) : Option (List String × Option String) :=
-  let names := ps.mapM (fun p => match p with | Sx.sym s => some s | _ => none)
+  let names := ps.mapM (fun p => match p with | Sx.sym s => (if s == "true" || s == "false" then none else some s) | _ => none)
   match names with
   | none => none
   | some ns =>
@@ -196,15 +197,16 @@ partial def elabForm (h : String) (args : List Sx) : Expr :=
   else if h = "def" ∨ h = "set" then
     match args with
     | [.sym x, e] =>
-      if isProtectedName x then .bad "def/set of a protected name"
+      if isProtectedName x || x == "true" || x == "false" then .bad "def/set of a protected name or a bool literal"
       else if h = "def" then .def_ x (elabE e) else .set_ x (elabE e)
+    | [.list (l :: ls), e] => .assign (elabE (.list (l :: ls))) (elabE e)
     | _ => .bad "def/set shape"
   else if h = "begin" then .begin_ (elabList args)
   else if h = "let" ∨ h = "letseq" then
     match args with
     | .arr bs :: b :: body =>
       if bs.length % 2 ≠ 0 then .bad "uneven let binding list"
-      else if (elabBinds bs).length * 2 ≠ bs.length then .bad "cannot bind to non-symbol"
+      else if (elabBinds bs).length * 2 ≠ bs.length ∨ (elabBinds bs).any (fun p => p.1 == "true" || p.1 == "false") then .bad "cannot bind to non-symbol"
       else .let_ (h = "letseq") (elabBinds bs) (elabList (b :: body))
     | _ => .bad "malformed let"
   else if h = "newScope" then .newScope (elabList args)
@@ -233,12 +235,14 @@ partial def elabForm (h : String) (args : List Sx) : Expr :=
   else if h = "defn" then
     match args with
     | .sym name :: .arr ps :: b :: body =>
-      if isProtectedName name then .bad "defn of a protected name"
+      if isProtectedName name || name == "true" || name == "false" then .bad "defn of a protected name"
       else match splitParams ps with
         | some (ns, r) => .defn name ns r (elabList (b :: body))
         | none => .bad "function argument must be symbol"
     | _ => .bad "malformed defn"
   else if foreignForms.contains h then .bad "form outside the core language"
+  else if h = "true" then .call (.bool true) (elabList args)
+  else if h = "false" then .call (.bool false) (elabList args)
   else .call (.sym h) (elabList args)
 end
 
